@@ -238,3 +238,11 @@ Example ex_addr_subst_version_char :
   decode_bech32 [98;99;49;112;119;53;48;56;100;54;113;101;106;120;116;100;103;52;121;53;114;51;122;97;114;
         118;97;114;121;48;99;53;120;119;55;107;118;56;102;51;116;52] = Err.
 Proof. vm_compute. reflexivity. Qed.
+
+(* The constants written in the model are the constants of the SOURCE: coq/Generated/SrcConsts.v is regenerated
+   from /repo/buidl/*.py by harness/gen_coq_consts.py on every run; the statements are spelled out in
+   Proofs/ConstsTie.v (bech32_is_source_stmt, base58_is_source_stmt). *)
+From V Require Proofs.ConstsTie.
+Theorem C09_constants_match_source : ConstsTie.bech32_is_source_stmt /\ ConstsTie.base58_is_source_stmt.
+Proof. exact (conj ConstsTie.bech32_is_source ConstsTie.base58_is_source). Qed.
+Print Assumptions C09_constants_match_source.
